@@ -549,7 +549,14 @@ func MarshalMapIter(ctx Ctx, iter *reflect.MapIter, tuples []*MapTuple, cont Pro
 			return MarshalMapTuples(ctx, tuples, cont), nil
 		}
 		var tokens Tokens
-		keyMarshalProc := MarshalValue(Ctx{}, iter.Key(), nil)
+		// the sort tokens are taken under the default options, but the cycle
+		// detection state goes along: a cycle may pass through a map key
+		keyCtx := Ctx{
+			pointerDepth:       ctx.pointerDepth,
+			visitedPointers:    ctx.visitedPointers,
+			detectCycleEnabled: ctx.detectCycleEnabled,
+		}
+		keyMarshalProc := MarshalValue(keyCtx, iter.Key(), nil)
 		if err := Copy(
 			// tokens are for sorting only, so do not call ctx.Marshal
 			&keyMarshalProc,
